@@ -95,6 +95,41 @@ Theorem C01_unmarshal_truncated : forall p s u,
 Proof. exact unmarshal_truncated. Qed.
 Print Assumptions C01_unmarshal_truncated.
 
+(* ---- readers that see HOW the stream ends: the last bytes delivered together with io.EOF (FLast),
+   a failing Read (FFail); `ebytes s` = all bytes the stream delivers, `plain s` = the same stream
+   with an ordinary end ---------------------------------------------------------------------- *)
+Theorem C01_unmarshal_e_marshal : forall p b s rest,
+  wf p = true -> marshal p = Ok b -> no_empty (fst s) -> ebytes s = b ++ rest ->
+  exists s', unmarshal_e s = Ok (rewind p, s') /\ ebytes s' = rest.
+Proof. exact unmarshal_e_marshal. Qed.
+Print Assumptions C01_unmarshal_e_marshal.
+
+(* every success of the plain reader (also on arbitrary bytes) is a success of this reader *)
+Theorem C01_unmarshal_e_sim : forall s q t,
+  unmarshal (plain s) = Ok (q, t) -> exists s', unmarshal_e s = Ok (q, s') /\ plain s' = t.
+Proof. exact unmarshal_e_sim. Qed.
+Print Assumptions C01_unmarshal_e_sim.
+
+Theorem C01_unmarshal_srd_e_marshal_stream : forall p s rest,
+  wf_stream p = true -> no_empty (fst s) -> ebytes s = marshal_stream p ++ rest ->
+  exists s', unmarshal_srd_e s = Ok (unread p, s') /\ ebytes s' = rest.
+Proof. exact unmarshal_srd_e_marshal_stream. Qed.
+Print Assumptions C01_unmarshal_srd_e_marshal_stream.
+
+Theorem C01_unmarshal_srd_e_sim : forall s q t,
+  unmarshal_srd (plain s) = Ok (q, t) -> exists s', unmarshal_srd_e s = Ok (q, s') /\ plain s' = t.
+Proof. exact unmarshal_srd_e_sim. Qed.
+Print Assumptions C01_unmarshal_srd_e_sim.
+
+(* zero-length reads (0, nil) = empty chunks: tolerated by io.ReadFull (header, tags) and in the
+   payload directly after a Read that delivered bytes; NOT as the first Read of a ReadFrom call *)
+Theorem C01_zero_reads_where_tolerated : forall f k s acc, 0 < k ->
+  read_full (S f) k ([] :: s) acc = read_full f k s acc /\
+  read_body (S f) k ([] :: s) acc false = read_body f k s acc true /\
+  read_body (S f) k ([] :: s) acc true = Err ErrUnexpectedEOF.
+Proof. exact zero_reads_where_tolerated. Qed.
+Print Assumptions C01_zero_reads_where_tolerated.
+
 (* ---- the nested stream form ------------------------------------------------------------------ *)
 (* from a Chunk (the container of a batched packet) *)
 Theorem C01_unmarshal_stream_marshal_stream : forall p rest,
@@ -225,6 +260,13 @@ Example C01_nonvacuous :
   wf ex_p5 = true /\ marshal ex_p5 = Ok (wire ex_p) /\ size ex_p5 = 46 /\ size ex_p = 46 + 5 + 8 + 1 /\
   unmarshal_many 9 (split (SEvery 5) (wire ex_p5 ++ wire ex_q)) = Ok [ex_p; ex_q] /\
   (do '(p, r) <- unmarshal_stream (marshal_stream ex_p3 ++ marshal_stream ex_q); Ok (p_pay p, len r)) = Ok ([108;111], len (marshal_stream ex_q)) /\
+  (* the last chunk delivered together with io.EOF (whole stream in one Read; 5-byte reads), and a failing Read after the packet *)
+  (do '(p, r) <- unmarshal_e (esplit (SOnce []) 1 (wire ex_p)); Ok (p, ebytes r)) = Ok (ex_p, []) /\
+  (do '(p, r) <- unmarshal_e (esplit (SEvery 5) 1 (wire ex_p ++ [9;9])); Ok (p, ebytes r)) = Ok (ex_p, [9;9]) /\
+  (do '(p, r) <- unmarshal_e (esplit (SEvery 5) 13 (wire ex_p)); Ok (p, ebytes r)) = Ok (ex_p, []) /\
+  (do '(p, r) <- unmarshal_srd_e (esplit (SEvery 4) 1 (marshal_stream (set_rpos 5 ex_p))); Ok (p_pay p, ebytes r)) = Ok ([], []) /\
+  (* recorded: a (0, nil) read exactly where the payload starts is taken for the end of the stream *)
+  unmarshal (split (SOnce [46 + 1 + 8; 0]) (wire ex_p)) = Err ErrUnexpectedEOF /\
   flag_len (p_flags ex_p) = 3 /\ flag_position (p_flags ex_p) = 1 /\ flag_group (p_flags ex_p) = 7 /\
   flag_set_position (p_flags ex_p) 2 = 844433520525313 /\ flag_clear (p_flags ex_p) = 0.
 Proof. vm_compute. repeat split; reflexivity. Qed.
